@@ -5,12 +5,15 @@ from props.C01 import ASSUMPTIONS as A01, TRUSTED as T01
 
 ASSUMPTIONS = A01 + ["well-formed input: every binary file is the concatenation of canonical FABs at the recorded offsets "
                      "(OnDisk); boxes handed to mp_fun_shape are in offset order (parent bookkeeping: bounded layer)",
-                     "sub-checks of Taster.taste() are abstracted to their outcome in the dispatch proof"]
+                     "sub-checks of Taster.taste() are abstracted to their outcome in the dispatch proof",
+                     "taste_box_coordinates: one level, any number of boxes, reals for floats, np.linspace step = dx by "
+                     "cancellation (checked by the solver at the call), np.isclose as |a-b| <= 1e-8 + 1e-5|b|"]
 TRUSTED = T01 + ["pool.imap order and exception propagation (assumed)"]
 
 
 def tasks(tier):
-    return worker_tasks("C03", ["complete"]) + dispatch_tasks("C03")
+    from props.taste_coords import coord_tasks
+    return worker_tasks("C03", ["complete"]) + dispatch_tasks("C03") + coord_tasks("C03")
 
 
 def canaries(tier):
@@ -20,7 +23,8 @@ def canaries(tier):
              ["mp_fun_shape.complete[nd=3]"]),
             ("dispatch: isgood not cleared on exception",
              [(f, "        except Exception as e:\n            self.isgood = False\n            if self.fail_on_bad:",
-               "        except Exception as e:\n            if self.fail_on_bad:")], ["Taster.__init__[binary_data=False]"])]
+               "        except Exception as e:\n            if self.fail_on_bad:")], ["Taster.__init__[binary_data=False]"])] + \
+        __import__("props.taste_coords", fromlist=["coord_canaries"]).coord_canaries()[1:]
 
 
 SCENARIO_TIMEOUT = 400
